@@ -2,14 +2,16 @@ package main
 
 // Family "entry" (C04/C05): histories of host calls on one interpreter through
 // the public entry points — LoadString, Run, EvalString, EvalExpressions,
-// Apply, Clear, with texts that run, fail at run time, are empty or are
-// rejected — validated against spec/EntryPoints.tla by EntryTrace.tla: which
+// Apply, SourceStream / SourceFile / SourceExpressions, zygo.EvalFunction,
+// Clear, with texts that run, fail at run time, are empty or are rejected — validated against spec/EntryPoints.tla by EntryTrace.tla: which
 // chunks are pending, what runs when, where the program counter is left.
 
 import (
 	"bytes"
 	"encoding/json"
 	"fmt"
+	"os"
+	"strings"
 
 	zygo "github.com/glycerine/zygomys/v9/zygo"
 )
@@ -41,7 +43,14 @@ var entryAlphabet = []entryOp{
 	{"evalx", "ok", ""}, {"evalx", "fail", ""},
 	{"reject", "", "eval-compile"}, {"reject", "", "load-compile"}, {"reject", "", "eval-parse"}, {"reject", "", "eval-expansion"}, {"reject", "", "load-jump"},
 	{"run", "", ""}, {"apply", "ok", ""}, {"apply", "fail", ""}, {"clear", "", ""},
+	// the entry points that compile and run a text apart from the top-level buffer (the first entryOldOps
+	// letters are the alphabet without them)
+	{"source", "ok", ""}, {"source", "fail", ""}, {"source", "empty", ""}, {"evalfn", "ok", ""}, {"evalfn", "fail", ""},
 }
+
+const entryOldOps = 17
+
+var sourceVias = []string{"stream", "file", "exprs"}
 
 const entrySetup = "(defn apok [i] (tr i i))\n(defn apfail [i] (tr i i) (aget [1] 5))\n(defmac zvboom [] (aget [1] 5))\n"
 
@@ -129,6 +138,41 @@ func runEntryCase(id string, ops []entryOp) entryCase {
 				} else {
 					call(func() (zygo.Sexp, error) { return env.EvalString(ev.Text) })
 				}
+			case "source":
+				ev.Text = text
+				switch op.via {
+				case "exprs":
+					call(func() (zygo.Sexp, error) {
+						xs, perr := parseForms(env, text)
+						if perr != nil {
+							return zygo.SexpNull, perr
+						}
+						return zygo.SexpNull, env.SourceExpressions(xs)
+					})
+				case "file":
+					call(func() (zygo.Sexp, error) {
+						f, ferr := os.CreateTemp("", "zvsrc")
+						if ferr != nil {
+							fatal("%v", ferr)
+						}
+						defer os.Remove(f.Name())
+						defer f.Close()
+						f.WriteString(text)
+						f.Seek(0, 0)
+						return zygo.SexpNull, env.SourceFile(f)
+					})
+				default:
+					call(func() (zygo.Sexp, error) { return zygo.SexpNull, env.SourceStream(strings.NewReader(text)) })
+				}
+			case "evalfn":
+				ev.Text = text
+				call(func() (zygo.Sexp, error) {
+					xs, perr := parseForms(env, text)
+					if perr != nil {
+						return zygo.SexpNull, perr
+					}
+					return zygo.EvalFunction(env, "eval", xs)
+				})
 			case "run":
 				call(func() (zygo.Sexp, error) { return env.Run() })
 			case "apply":
@@ -189,7 +233,7 @@ func init() {
 				var ops []entryOp
 				for _, e := range in.Evs {
 					k := e.Kind
-					if e.ID == 0 && (e.Op == "load" || e.Op == "eval") {
+					if e.ID == 0 && (e.Op == "load" || e.Op == "eval" || e.Op == "source") {
 						k = "empty"
 					}
 					ops = append(ops, entryOp{e.Op, k, e.Via})
@@ -203,10 +247,12 @@ func init() {
 		if c.thorough() {
 			L = 4
 		}
-		var rec func(prefix []entryOp)
-		rec = func(prefix []entryOp) {
+		// all histories of <= L calls; of the longest ones that use the entry points added last, the quick
+		// tier takes a seeded half
+		var rec func(prefix []entryOp, newer bool)
+		rec = func(prefix []entryOp, newer bool) {
 			if len(prefix) > 0 {
-				if c.mine(idx) {
+				if c.mine(idx) && (!newer || len(prefix) < L || c.thorough() || hashSel(c.seed, idx, 1, 2)) {
 					w.write(runEntryCase(fmt.Sprintf("e%d", idx), prefix))
 				}
 				idx++
@@ -214,11 +260,14 @@ func init() {
 			if len(prefix) == L {
 				return
 			}
-			for _, op := range entryAlphabet {
-				rec(append(append([]entryOp(nil), prefix...), op))
+			for oi, op := range entryAlphabet {
+				if op.op == "source" {
+					op.via = sourceVias[(idx+oi)%len(sourceVias)]
+				}
+				rec(append(append([]entryOp(nil), prefix...), op), newer || oi >= entryOldOps)
 			}
 		}
-		rec(nil)
+		rec(nil, false)
 		n := c.n
 		if n == 0 {
 			n = 400
@@ -231,7 +280,11 @@ func init() {
 				r := newRng(c.seed, uint64(i)+91)
 				var ops []entryOp
 				for s := 0; s < 14; s++ {
-					ops = append(ops, pick(r, entryAlphabet))
+					op := pick(r, entryAlphabet)
+					if op.op == "source" {
+						op.via = pick(r, sourceVias)
+					}
+					ops = append(ops, op)
 				}
 				w.write(runEntryCase(fmt.Sprintf("er%d-%d", c.seed, i), ops))
 			}
